@@ -28,7 +28,7 @@ class CapturedPath:
         "Line is not connected to a GFA instance\n"+
         "Line: {}".format(self))
     retval = []
-    if len(self.segment_names) == 1:
+    if len(self.segment_names) == 1 and not self.links:
       retval.append(self.segment_names[0])
     else:
       for i in range(len(self.segment_names) - 1):
